@@ -1,0 +1,102 @@
+//go:build verif
+
+// Machine-checked contracts for package motion (comment-only; compiled only with
+// -tags verif, and even then it adds no declarations). The verifier is
+// /verif/govc; the contract language is described in /verif/DESIGN.md §2.5.
+
+package motion
+
+// ---------------------------------------------------------------------------
+// L0: FrameLoop as an abstract history (C19; used by C01 C02 C07 C09)
+//
+// Ghost state: base = sequence number held by slot 0 in the current lap,
+// mark = sequence number of the last SetAsOldest (0 initially / after Reset).
+// n() is the sequence number of the current slot; sequence numbers count the
+// Move()s since creation or Reset.
+
+//@ ghost field FrameLoop.base int
+//@ ghost field FrameLoop.mark int
+//@
+//@ pure func (fl *FrameLoop) n() int := fl.base + fl.currentIndex
+//@ pure func (fl *FrameLoop) seq(i int) int := i <= fl.currentIndex ? fl.base + i : fl.base - fl.size + i
+//@ pure func (fl *FrameLoop) slot(s int) int := s >= fl.base ? s - fl.base : s - fl.base + fl.size
+//@ pure func (fl *FrameLoop) hs() int := max(fl.mark, fl.n() - fl.size + 1)
+//@
+//@ pred (fl *FrameLoop) storage() :=
+//@      fl.size >= 1 && len(fl.frames) == fl.size && len(fl.orderedFrames) == fl.size
+//@   && arr(fl.frames) != arr(fl.orderedFrames) && arr(fl.frames) != 0 && arr(fl.orderedFrames) != 0
+//@   && (forall i int :: 0 <= i && i < fl.size ==> fl.frames[i] != nil)
+//@   && (forall i int, j int :: 0 <= i && i < j && j < fl.size ==> fl.frames[i] != fl.frames[j])
+//@
+//@ pred (fl *FrameLoop) inv() :=
+//@      fl.storage()
+//@   && 0 <= fl.currentIndex && fl.currentIndex < fl.size
+//@   && ((fl.bufferFull && fl.base >= fl.size) || (!fl.bufferFull && fl.base == 0))
+//@   && 0 <= fl.mark && fl.mark <= fl.n()
+//@   && ((fl.oldest == NO_OLDEST_SET) == (fl.mark <= fl.n() - fl.size))
+//@   && (fl.oldest != NO_OLDEST_SET ==> 0 <= fl.oldest && fl.oldest < fl.size && fl.seq(fl.oldest) == fl.mark)
+
+//@ func NewFrameLoop
+//@   allocates
+//@   requires size >= 1
+//@   loop 1 invariant 0 <= rangeindex + 1 && rangeindex + 1 <= len(frames) && len(frames) == size && fresh(arr(frames)) && off(frames) == 0
+//@   loop 1 invariant forall j int :: 0 <= j && j <= rangeindex ==> fresh(frames[j])
+//@   loop 1 invariant forall j int, k int :: 0 <= j && j < k && k <= rangeindex ==> frames[j] != frames[k]
+//@   ensures [C19] fresh(result) && result.inv() && result.n() == 0 && result.mark == 0 && result.size == size
+//@   ensures [C19] forall i int :: 0 <= i && i < size ==> fresh(result.frames[i])
+
+//@ func (fl *FrameLoop) Reset
+//@   requires fl != nil && fl.storage()
+//@   modifies fl.currentIndex, fl.oldest, fl.bufferFull, fl.base, fl.mark
+//@   ghost_exit fl.base = 0; fl.mark = 0
+//@   ensures [C19,C09] fl.inv() && fl.n() == 0 && fl.mark == 0
+
+//@ func (fl *FrameLoop) nextIndexAfter
+//@   requires fl != nil && fl.size >= 1 && 0 <= index && index < fl.size
+//@   ensures result == (index + 1 == fl.size ? 0 : index + 1)
+
+//@ func (fl *FrameLoop) Move
+//@   requires fl != nil && fl.inv()
+//@   modifies fl.currentIndex, fl.bufferFull, fl.oldest, fl.base
+//@   ghost_exit fl.base = fl.currentIndex == 0 ? old(fl.base) + fl.size : old(fl.base)
+//@   ensures [C19] fl.inv() && fl.n() == old(fl.n()) + 1 && fl.mark == old(fl.mark)
+//@   ensures [C19] result == fl.frames[fl.currentIndex] && fl.currentIndex == fl.slot(fl.n())
+//@   ensures [C19] forall i int :: 0 <= i && i < fl.size && i != fl.currentIndex ==> fl.seq(i) == old(fl.seq(i))
+
+//@ func (fl *FrameLoop) Current
+//@   requires fl != nil && fl.storage() && 0 <= fl.currentIndex && fl.currentIndex < fl.size
+//@   ensures [C19] result == fl.frames[fl.currentIndex] && result != nil
+
+//@ func (fl *FrameLoop) CopyRecent
+//@   allocates
+//@   requires fl != nil && fl.inv()
+//@   ensures [C19] fresh(result)
+//@   ensures [C19] fl.n() >= 1 ==> result.copiedFrom == ref(fl.frames[fl.slot(fl.n() - 1)])
+//@   ensures [C19] fl.n() >= 1 && fl.size >= 2 ==> fl.slot(fl.n() - 1) != fl.currentIndex
+
+//@ func (fl *FrameLoop) getFullHistory
+//@   requires fl != nil && fl.inv()
+//@   modifies elems(fl.orderedFrames)
+//@   ensures arr(result) == arr(fl.orderedFrames) && off(result) == off(fl.orderedFrames)
+//@   ensures len(result) == min(fl.n() + 1, fl.size)
+//@   ensures forall k int :: 0 <= k && k < len(result) ==> result[k] == fl.frames[fl.slot(fl.n() - len(result) + 1 + k)]
+
+//@ func (fl *FrameLoop) GetHistory
+//@   requires fl != nil && fl.inv()
+//@   modifies elems(fl.orderedFrames)
+//@   ensures [C19,C01,C02] len(result) == fl.n() - fl.hs() + 1 && 1 <= len(result) && len(result) <= fl.size && fl.hs() >= 0
+//@   ensures [C19,C01,C02] forall k int :: 0 <= k && k < len(result) ==> result[k] == fl.frames[fl.slot(fl.hs() + k)]
+//@   ensures [C19,C01,C02] forall k int :: 0 <= k && k < len(result) ==> fl.seq(fl.slot(fl.hs() + k)) == fl.hs() + k && 0 <= fl.slot(fl.hs() + k) && fl.slot(fl.hs() + k) < fl.size
+//@   ensures [C19] result[len(result) - 1] == fl.frames[fl.currentIndex]
+//@   ensures [C19] arr(result) == arr(fl.orderedFrames)
+
+//@ func (fl *FrameLoop) Oldest
+//@   requires fl != nil && fl.inv()
+//@   ensures [C19,C07,C09] result == fl.frames[fl.slot(fl.hs())] && result != nil
+//@   ensures [C19] fl.mark > fl.n() - fl.size ==> fl.seq(fl.slot(fl.hs())) == fl.mark
+
+//@ func (fl *FrameLoop) SetAsOldest
+//@   requires fl != nil && fl.inv()
+//@   modifies fl.oldest, fl.mark
+//@   ghost_exit fl.mark = fl.n()
+//@   ensures [C19] fl.inv() && fl.mark == fl.n() && result == fl.frames[fl.currentIndex]
